@@ -91,6 +91,7 @@ func (node *ListNode) Size() int {
 
 // Variables implements ItemNode.Variables().
 func (node *ListNode) Variables() []string {
+	verifListWalk()
 	result := []string{}
 
 	var posVar map[int]string = node.variablesSwapKeyValue()
